@@ -35,6 +35,11 @@ fn main() {
 		eprintln!("machinery: {}", e);
 		std::process::exit(2);
 	}
+	if let Err(e) = env::wall_clock_self_test() {
+		eprintln!("machinery: {}", e);
+		std::process::exit(2);
+	}
+	env::install_logger();
 	match args[1].as_str() {
 		"replay" => {
 			let path = args.get(2).unwrap_or_else(|| usage());
